@@ -56,6 +56,8 @@ def helperOuts (maxEventLength : Int) (name : Bytes) (a : List Bytes) : List Out
   | "SendCTCPReply" => let o := encodeCTCPRaw (arg 1) (arg 2); if o.isEmpty then [] else [.send (ev "NOTICE" [arg 0, o])]
   | "Quit" => [.send (ev "QUIT" [arg 0])]
   | "SendEvent" => [.send { command := arg 0, params := a.drop 1 }]
+  -- `SendRaw(lines...)`: every line is parsed and sent, up to the first one that does not parse
+  | "SendRaw" => ((a.map parseEvent).takeWhile Option.isSome).filterMap (fun o => o.map Out.send)
   | _ => []
 
 /-- `MaxEventLength()` -/
